@@ -16,6 +16,15 @@ A function whose translator obligation breaks (source rewritten in a shape the t
 differently from the table) is additionally run on the pool 7 densities x 7 proportion classes x shared / per-axis
 grids (`pool_cases`) against the model and the predicates; only when that finds nothing is the broken obligation
 reported without a failing input.
+Memory layouts and pipelines (`layout_block`, `manip_layout_cases`): the model is a function of the LOGICAL content of a
+density; the implementation receives numpy arrays, and PhiManip.reorder_pops hands back a transposed VIEW.  On every run every
+constructor / pulse function / remove / filter / reorder is therefore also run on the same logical content held Fortran-ordered,
+as a transposed view, with negative strides, as every other cell of a larger NaN-filled array, and as the very object returned
+by the step before in the pipelines  reorder_pops -> f,  reorder_pops -> pulse -> remove_pop,  constructor -> reorder_pops -> pulse
+(no copy in between: phi = PhiManip.f(phi, ...) as documented).  Every step of a pipeline is one correspondence case (model on
+the logical content the step received) and one evaluation of the predicates, plus two layout predicates on the real code:
+the result equals the result on a fresh C-contiguous copy of the same content, and reordering commutes with the pulse
+(pulse_f(reorder(b)) == reorder(pulse_g(b)) for the permuted pulse g).  The rich pool of an untied function contains all of these.
 """
 import itertools, json, math, os
 from fractions import Fraction
@@ -378,6 +387,221 @@ def npts(rng, d, quick):
     return {1: rng.randint(4, 8), 2: rng.randint(4, 8), 3: rng.randint(4, 6 if quick else 7),
             4: rng.randint(3, 4 if quick else 5), 5: rng.randint(3, 3 if quick else 4)}[d]
 
+# ------------------------------------------------------------------------------------------------------------
+# memory layouts and multi-step pipelines
+
+LAYOUTS = ['F', 'T', 'neg', 'strided']
+LAYOUT_TXT = {'C': 'C-contiguous array', 'F': 'Fortran-ordered array', 'T': 'transposed view of a C-contiguous array',
+              'neg': 'view with negative strides along every axis', 'strided': 'every other cell of a larger NaN-filled array (grids strided too)'}
+PULSE_BY = {(d, dest): (k, name, pat) for k, (name, d, dest, pat) in enumerate(PULSES)}
+DYADIC_CLASSES = ('zero', 'onehot', 'interior', 'face', 'ongrid')
+OTHER_CLASSES = ['face', 'onehot', 'ongrid', 'decimal', 'ulp']
+STEP_KEYS = ('op', 'fn', 'grids', 'ps', 'arg', 'k', 'dest', 'pat', 'cls', 'shared', 'commute')
+
+def rand_perm(rng, d):
+    """a non-identity permutation of range(d) (d >= 2)"""
+    while True:
+        p = list(range(d)); rng.shuffle(p)
+        if p != list(range(d)):
+            return p
+
+def step_of(c):
+    return {k_: c[k_] for k_ in STEP_KEYS if k_ in c}
+
+def commuted(name, ps, order):
+    """the pulse g and its proportions with  name(reorder_pops(b, order), ps) == reorder_pops(g(b, ps_g), order):
+    axis i of the reordered density is axis order[i]-1 of b; the proportion parameters of every pulse function are those of the
+    non-destination axes in increasing order"""
+    _, d, dest, _ = [t for t in PULSES if t[0] == name][0]
+    src = dict(zip([a for a in range(d) if a != dest], ps))
+    dest_g = order[dest] - 1
+    _, g, _ = PULSE_BY[(d, dest_g)]
+    return g, [src[order.index(a + 1)] for a in range(d) if a != dest_g]
+
+def with_layout(rng, c, layout):
+    c['layout'] = layout
+    if layout == 'T':
+        c['perm'] = rand_perm(rng, len(c['shape']))
+    return c
+
+def reorder_step(order):
+    return dict(op='reorder', fn='reorder_pops', grids=[], ps=[], arg=list(order), cls='reorder', shared=True)
+
+def pipe_after_reorder(rng, c, tail=(), label=None):
+    """reorder_pops(b, order) -> the call described by the single-step case c [-> tail steps]; b is chosen so that the
+    reordered view holds exactly c['phi'] (all axes of c have the same length)"""
+    d = len(c['shape'])
+    order = [a + 1 for a in rand_perm(rng, d)]
+    inv = [int(i) for i in np.argsort([o - 1 for o in order])]
+    base = np.array(c['phi'], dtype=float).reshape(c['shape']).transpose(inv)
+    main = step_of(c)
+    if c['op'] == 'pulse' and c.get('shared') and c['cls'] in DYADIC_CLASSES:
+        g, psg = commuted(c['fn'], c['ps'], order)
+        main['commute'] = {'fn': g, 'ps': psg}
+    steps = [reorder_step(order), main] + list(tail)
+    return dict(pipe=label or ' -> '.join(s_['fn'] for s_ in steps), layout='C', shape=[int(n) for n in base.shape],
+                phi=[float(t) for t in np.ascontiguousarray(base).ravel()], steps=steps, fn=c['fn'], cls=c['cls'], dens=c['dens'],
+                op=c['op'], main=1)
+
+def pulse_step(rng, name, g, cls='interior'):
+    k, (_, d, dest, pat) = [(i, t) for i, t in enumerate(PULSES) if t[0] == name][0]
+    return dict(op='pulse', k=k, fn=name, grids=[list(g)] * d, ps=props_of(rng, cls, NPROPS[name], pat, g), cls=cls, shared=True,
+                dest=dest, pat=pat)
+
+def pipe_cons_reorder_pulse(rng, quick, name, dens, ci):
+    """constructor (d-1 -> d populations) -> reorder_pops -> pulse `name` (d populations), one shared grid"""
+    _, d, dest, pat = [t for t in PULSES if t[0] == name][0]
+    if d == 2:
+        n = rng.randint(4, 8)
+        g = numgen.grid(rng, n)
+        first = dict(op='split12', fn='phi_1D_to_2D', grids=[list(g)], ps=[], cls='split12', shared=True)
+        shape = [n]
+    else:
+        cands = [(k, t) for k, t in enumerate(CONS) if t[1] == d - 1]
+        k, (cname, cd, _, cpat) = cands[ci % len(cands)]
+        n = npts(rng, d, quick)
+        g = numgen.grid(rng, n)
+        m = NPROPS[cname]
+        first = dict(op='cons', k=k, fn=cname, grids=[list(g)] * (1 if m == 0 else cd + 1), ps=props_of(rng, 'interior', m, cpat, g),
+                     cls='interior' if m else 'zero', shared=True, dest=None, pat=cpat)
+        shape = [n] * cd
+    order = [a + 1 for a in rand_perm(rng, d)]
+    main = pulse_step(rng, name, g)
+    gname, psg = commuted(name, main['ps'], order)
+    main['commute'] = {'fn': gname, 'ps': psg}
+    steps = [first, reorder_step(order), main]
+    return dict(pipe=' -> '.join(s_['fn'] for s_ in steps), layout='C', shape=shape, phi=density(rng, int(np.prod(shape)), dens),
+                steps=steps, fn=name, cls='interior', dens=dens, op='pulse', main=2)
+
+def layout_block(rng, quick, op, k, name, d, dest, pat, fi, rot, pool=False):
+    """every memory layout and pipeline for one constructor / pulse function (see the module docstring)"""
+    m = NPROPS[name]
+    out = []
+    t = [fi + rot]
+    def dens(exclude=()):
+        while True:
+            t[0] += 1
+            dn = DENS[t[0] % len(DENS)]
+            if dn not in exclude:
+                return dn
+    def mk(cls, dn=None):
+        return admix_case(rng, quick, op, k, name, d, dest, pat, cls if m else 'zero', dn or dens(), True)
+    def remove_tail(c):
+        return [dict(op='remove', fn='remove_pop', grids=[list(c['grids'][0])], ps=[], arg=rng.randint(1, d), cls='remove', shared=True)]
+    classes = VALID if pool else ['interior']
+    for cls in (classes if m else ['zero']):
+        for layout in LAYOUTS:
+            out.append(with_layout(rng, mk(cls), layout))
+        c = mk(cls)
+        out.append(pipe_after_reorder(rng, c, tail=remove_tail(c) if op == 'pulse' else ()))
+    if m and not pool:
+        # identity at proportion 0 on the reordered view; one more proportion class on a rotating layout
+        out.append(pipe_after_reorder(rng, mk('zero')))
+        cls = OTHER_CLASSES[(fi + rot) % len(OTHER_CLASSES)]
+        lay = (LAYOUTS + ['reorder'])[(fi + rot) % 5]
+        c = mk(cls)
+        out.append(pipe_after_reorder(rng, c) if lay == 'reorder' else with_layout(rng, c, lay))
+    if op == 'pulse':
+        for rep in range(2 if pool else 1):
+            # two deposits in a row multiply the entries by up to (2 / smallest spacing)^2: not on the 2^996 densities
+            out.append(pipe_cons_reorder_pulse(rng, quick, name, dens(exclude=('huge',)), fi + rot + rep))
+    if pool:
+        for c in out:
+            c['pool'] = True
+    return out
+
+def manip_layout_cases(rng, rot):
+    """remove_pop / filter_pops / reorder_pops / phi_1D_to_2D on every layout, d rotating over 2..5 (1-D: negative stride and
+    strided), and after reorder_pops"""
+    out = []
+    t = rot
+    def shape_of(d):
+        hi = {1: 9, 2: 7, 3: 5, 4: 4, 5: 3}[d]
+        return [rng.randint(2, hi) for _ in range(d)], hi
+    def mk(fn, d, dens):
+        shape, hi = shape_of(d)
+        if fn == 'remove_pop':
+            pop = rng.randint(1, d)
+            return dict(op='remove', fn=fn, shape=shape, grids=[numgen.grid(rng, shape[pop - 1]) if shape[pop - 1] >= 3 else [0.0, 1.0]],
+                        ps=[], phi=density(rng, int(np.prod(shape)), dens), arg=pop, cls='remove', dens=dens, shared=True)
+        if fn == 'reorder_pops':
+            return dict(op='reorder', fn=fn, shape=shape, grids=[], ps=[], phi=density(rng, int(np.prod(shape)), dens),
+                        arg=[a + 1 for a in rand_perm(rng, d)] if d >= 2 else [1], cls='reorder', dens=dens, shared=True)
+        if fn == 'filter_pops':
+            n = rng.randint(3, hi + 1)
+            keep = sorted(rng.sample(range(1, d + 1), rng.randint(1, d - 1)))
+            if rng.random() < 0.5:
+                rng.shuffle(keep)
+            return dict(op='filter', fn=fn, shape=[n] * d, grids=[numgen.grid(rng, n)], ps=[], phi=density(rng, n ** d, dens),
+                        arg=keep, cls='filter', dens=dens, shared=True)
+        n = rng.randint(3, 9)
+        return dict(op='split12', fn='phi_1D_to_2D', shape=[n], grids=[numgen.grid(rng, n)], ps=[], phi=density(rng, n, dens),
+                    cls='split12', dens=dens, shared=True)
+    for fi, fn in enumerate(['remove_pop', 'filter_pops', 'reorder_pops']):
+        for li, layout in enumerate(LAYOUTS):
+            t += 1
+            out.append(with_layout(rng, mk(fn, 2 + (fi + li + rot) % 4, DENS[t % len(DENS)]), layout))
+        # the view handed back by reorder_pops (filter: equal axis lengths; remove / reorder: any shape)
+        t += 1
+        c = mk(fn, 2 + (fi + rot + 1) % 4, DENS[t % len(DENS)])
+        order = [a + 1 for a in rand_perm(rng, len(c['shape']))]
+        inv = [int(i) for i in np.argsort([o - 1 for o in order])]
+        base = np.array(c['phi'], dtype=float).reshape(c['shape']).transpose(inv)
+        steps = [reorder_step(order), step_of(c)]
+        out.append(dict(pipe='reorder_pops -> ' + fn, layout='C', shape=[int(n) for n in base.shape],
+                        phi=[float(x) for x in np.ascontiguousarray(base).ravel()], steps=steps, fn=fn, cls=c['cls'], dens=c['dens'],
+                        op=c['op'], main=1))
+    for fn in ('remove_pop', 'phi_1D_to_2D'):
+        for layout in ('neg', 'strided'):
+            t += 1
+            out.append(with_layout(rng, mk(fn, 1, DENS[t % len(DENS)]), layout))
+    return out
+
+def to_payload(c):
+    if 'steps' in c:
+        return {'id': c['id'], 'layout': c.get('layout', 'C'), 'perm': c.get('perm'), 'shape': c['shape'], 'phi': c['phi'],
+                'steps': [{k_: v for k_, v in s_.items() if k_ in ('op', 'fn', 'grids', 'ps', 'arg', 'commute')} for s_ in c['steps']]}
+    return {'id': c['id'], 'layout': c.get('layout', 'C'), 'perm': c.get('perm'), 'shape': c['shape'], 'phi': c['phi'],
+            'steps': [{k_: c[k_] for k_ in ('op', 'fn', 'grids', 'ps', 'arg') if k_ in c}]}
+
+def expand(cases, byid):
+    """one unit per evaluated step: (virtual single-step case holding the logical content that step received, the step's
+    result, the generated case, step index).  A step's input is what the real code returned for the step before."""
+    units = []
+    for c in cases:
+        r = byid[c['id']]
+        if r.get('crashed'):
+            units.append((dict(c, uid=len(units), ps=c.get('ps', [])), r, c, 0))
+            continue
+        if 'steps' not in c:
+            units.append((dict(c, uid=len(units)), r['steps'][0], c, 0))
+            continue
+        phi, shape = c['phi'], c['shape']
+        for j, st in enumerate(c['steps']):
+            if j >= len(r['steps']):
+                break
+            rr = r['steps'][j]
+            vc = dict(st)
+            vc.update(phi=phi, shape=shape, dens=c['dens'], pipe=c['pipe'], step=j, uid=len(units), layout=c.get('layout', 'C') if j == 0 else 'obj')
+            if c.get('pool'):
+                vc['pool'] = True
+            units.append((vc, rr, c, j))
+            if rr.get('raised') or rr.get('crashed'):
+                break
+            phi, shape = rr['res'], rr['shape']
+    return units
+
+def where(vc, top, j):
+    """function + layout + proportions of the failing step, for the violation text"""
+    if 'steps' in top:
+        calls = []
+        for s_ in top['steps'][:j + 1]:
+            calls.append('%s(%s)' % (s_['fn'], ', '.join(([repr(s_['ps'])] if s_.get('ps') else []) + ([repr(s_['arg'])] if 'arg' in s_ else []))))
+        return ' [step %d of the pipeline %s, each call receiving the object the call before returned]' % (j + 1, ' -> '.join(calls))
+    if top.get('layout', 'C') != 'C':
+        return ' [density passed as %s%s]' % (LAYOUT_TXT[top['layout']], ' axes %r' % top['perm'] if top.get('perm') else '')
+    return ''
+
 def gen_cases(ctx, refused=()):
     rng = ctx.rng
     cases = []
@@ -403,8 +627,14 @@ def gen_cases(ctx, refused=()):
                 for j, dens in enumerate(SIGNED):
                     cls = VALID[(fi + j + rot + rep) % len(VALID)] if m > 0 else 'zero'
                     add(**admix_case(rng, ctx.quick, op, k, name, d, dest, pat, cls, dens, True))
+            # memory layouts / pipelines: every function, on every run
+            for rep in range(ctx.pick(1, 3)):
+                for c in layout_block(rng, ctx.quick, op, k, name, d, dest, pat, fi + rep, rot):
+                    add(**c)
             if name in refused:
                 for c in pool_cases(rng, ctx.quick, op, k, name, d, dest, pat, reps=ctx.pick(1, 2)):
+                    add(**c)
+                for c in layout_block(rng, ctx.quick, op, k, name, d, dest, pat, fi, rot, pool=True):
                     add(**c)
     t = rot
     for rep in range(ctx.pick(1, 3) * len(DENS)):
@@ -438,7 +668,10 @@ def gen_cases(ctx, refused=()):
                     rng.shuffle(keep)
                 add(op='filter', fn='filter_pops', shape=[n] * d, grids=[numgen.grid(rng, n)], ps=[], phi=density(rng, n ** d, dens),
                     arg=keep, cls='filter', dens=dens, shared=True)
-    seen = set(c['dens'] for c in cases if c['op'] == 'filter')
+    for rep in range(ctx.pick(1, 3)):
+        for c in manip_layout_cases(rng, rot + rep):
+            add(**c)
+    seen = set(c['dens'] for c in cases if c['op'] == 'filter' and 'steps' not in c and 'layout' not in c)
     for dens in DENS:
         if dens not in seen:
             n = rng.randint(3, 7)
@@ -581,6 +814,46 @@ def predicates(ctx, c, r):
             bad.append(('reorder_pops(%r) is not the axis permutation' % (no,), None))
     return bad
 
+def layout_predicates(ctx, c, r):
+    """the two predicates that involve the memory layout, on the real code: (1) the result is a function of the logical content
+    (same result on a fresh C-contiguous copy); (2) reordering commutes with the pulse.  Scale: the largest |entry| of the
+    result (a deposit multiplies entries by up to 2 / spacing) or of the incoming density, whichever is larger."""
+    bad = []
+    if r.get('raised') or r.get('crashed') or 'res' not in r:
+        return bad
+    out = np.array(r['res'], dtype=float)
+    fin = out[np.isfinite(out)]
+    sc = max(max(abs(x) for x in c['phi']) or 1.0, float(np.abs(fin).max()) if fin.size else 0.0)
+    if 'layout_error' in r:
+        bad.append(('%s accepts this density but fails on a C-contiguous copy of the same content: %s' % (c['fn'], r['layout_error']), None))
+    elif 'layout_shape' in r:
+        bad.append(('%s: the shape of the result depends on the memory layout of the density (%r vs %r on a C-contiguous copy)' % (
+            c['fn'], r['shape'], r['layout_shape']), None))
+    elif r.get('layout_dev') is not None:
+        dev = r['layout_dev']
+        if dev == dev and dev <= PTOL * sc:
+            _rec(ctx, dev, sc)
+        else:
+            bad.append(('%s: result depends on the memory layout of the density: proportions %r, max dev %.3g from the result on a '
+                        'C-contiguous copy of the same content, at index %r, scale %.3g' % (c['fn'], c.get('ps'), dev, r.get('layout_at'), sc), None))
+    if 'commute_error' in r:
+        bad.append(('%s with proportions %r after reorder_pops: the permuted pulse %s%r on the density before the reorder fails: %s' % (
+            c['fn'], c['ps'], c['commute']['fn'], c['commute']['ps'], r['commute_error']), None))
+    elif 'commute' in r:
+        alt = np.array(r['commute'], dtype=float)
+        if r.get('commute_shape') != r['shape']:
+            dev = float('inf')
+        else:
+            dv = np.abs(alt - out)
+            dev = float(dv.max()) if dv.size and np.all(np.isfinite(dv)) else (0.0 if not dv.size else float('inf'))
+        if dev <= PTOL * sc:
+            _rec(ctx, dev, sc)
+        else:
+            bad.append(('%s: reordering does not commute with the pulse: with proportions %r on the result of reorder_pops it differs from '
+                        'reorder_pops of %s with proportions %r on the density before the reorder: max dev %.3g, scale %.3g' % (
+                            c['fn'], c['ps'], c['commute']['fn'], c['commute']['ps'], dev, sc), None))
+    return bad
+
 def valid_order(no, d):
     return sorted(no) == list(range(1, d + 1))
 
@@ -609,12 +882,20 @@ def run(ctx):
                 'non-zero cell / sign-changing scaled by 2^-997 (~1e-300) / sign-changing scaled by 2^996 (~1e300)) drawn from one PRNG; '
                 'every function meets every proportion class, per-axis grids and every density kind on every run (kinds rotate through the '
                 'classes, plus one case per sign-changing kind under an accepted class); a function whose translator obligation breaks is '
-                'additionally run on 7 densities x 7 classes x shared/per-axis grids; '
+                'additionally run on 7 densities x 7 classes x shared/per-axis grids; every function is also run, on every run, on the same '
+                'logical content held Fortran-ordered / as a transposed view / with negative strides / as every other cell of a larger '
+                'NaN-filled array, and on the object returned by the call before in the pipelines reorder_pops -> f, reorder_pops -> pulse -> '
+                'remove_pop, constructor -> reorder_pops -> pulse (each step one case; an untied function gets these for every accepted class); '
                 'distinct = distinct (function, shape, grids, proportions, density); non-trivial = not all proportions zero')
     ctx.assumptions += ['float64 output of the real code is compared with the model evaluated in 128-bit software floating point (NumD, exact comparisons) at 1e-10 relative to the largest entry',
                         'the deposit is continuous in the ad-mixed frequency across grid points, so a one-ulp difference between float and exact evaluation of the frequency changes the bracket but not the result beyond round-off',
                         'property predicates on the implementation use 1e-12 relative to the largest incoming entry',
                         'per-axis grids: only equal lengths (unequal lengths index out of bounds in the 4-D/5-D pulse functions that pass another axis\' grid); conservation is claimed for shared grids or own-grid wiring']
+    ctx.assumptions += ['memory layout is outside the model (a density is its logical content); the implementation is tied to it by running every '
+                        'function on non-contiguous holders of the same content and on the views handed from one PhiManip call to the next, comparing '
+                        'the returned density (pulses are documented in-place: the returned object is the argument, recorded in the input distribution)',
+                        'layout predicates (same result on a C-contiguous copy; reorder commutes with the pulse, dyadic proportions only) use 1e-12 '
+                        'of max(largest incoming |entry|, largest returned |entry|)']
     ctx.trusted += ['numpy fancy-index assignment, broadcasting, searchsorted and transpose semantics are covered by the correspondence check only']
     untied = translator_obligations(ctx) or {}
     cases = gen_cases(ctx, refused=set(untied))
@@ -623,15 +904,43 @@ def run(ctx):
         if rp.get('input') and 'case' in rp['input']:
             c = rp['input']['case']; c['id'] = 0
             cases = [c]
-    res = lib.run_impl('c06_impl.py', [strip(c) for c in cases], timeout=1200)
-    byid = {r['id']: r for r in res}
+    res = lib.run_impl('c06_impl.py', [to_payload(c) for c in cases], timeout=1200)
+    units = expand(cases, {r['id']: r for r in res})
+    byid = {}
+    tops = {}
+    cases = []
+    for vc, r, top, j in units:
+        vc['id'] = vc.pop('uid')
+        byid[vc['id']] = r; tops[vc['id']] = (top, j)
+        cases.append(vc)
     exprs = []
     npred = {}
     reported = set()
     for c in cases:
         r = byid[c['id']]
+        top, j = tops[c['id']]
+        vdata = {'case': strip(top), 'step': j, 'impl': {k_: v for k_, v in r.items() if k_ != 'commute'}}
         ctx.count('%s' % c['fn']); ctx.count('class=' + c['cls']); ctx.count('d=%d' % len(c['shape']))
         ctx.count('density=' + c.get('dens', '?')); ctx.count('%s density=%s' % (c['fn'], c.get('dens', '?')))
+        if 'steps' in top:
+            ctx.count('pipeline: ' + ' -> '.join(s_['op'] for s_ in top['steps']))
+            if j == top['main']:
+                ctx.count('%s after %s' % (c['fn'], ' -> '.join(s_['op'] for s_ in top['steps'][:j])))
+        elif top.get('layout', 'C') != 'C':
+            ctx.count('layout=' + top['layout']); ctx.count('%s layout=%s' % (c['fn'], top['layout']))
+        if not r.get('crashed') and not r.get('raised'):
+            if not (r.get('in_c') or r.get('in_f')):
+                ctx.count('incoming array neither C- nor F-contiguous')
+            elif not r.get('in_c'):
+                ctx.count('incoming array F-contiguous only')
+            if c['op'] == 'pulse':
+                # documented: "alters phi in place and returns the new version"; the clauses are evaluated on the returned density
+                ctx.count('pulse returns its argument object' if r.get('same_obj') else 'pulse returns another object')
+                ctx.count('pulse argument holds the returned density' if r.get('arg_holds') else 'pulse argument differs from the returned density')
+            if 'commute' in r:
+                ctx.count('reorder commutes with the pulse: evaluated')
+            if r.get('layout_dev') is not None:
+                ctx.count('result vs result on a C-contiguous copy: evaluated')
         if not c.get('shared', True):
             ctx.count('per-axis grids')
         if c.get('pool'):
@@ -645,17 +954,19 @@ def run(ctx):
                          'out_head': (r.get('res') or [])[:6]} if c['id'] % 23 == 0 else None)
         if r.get('crashed'):
             ctx.obligation('%s case %d runs' % (c['fn'], c['id']), False, 'predicate', r['error'])
-            ctx.violation('%s raised %s (proportions %r)' % (c['fn'], r['error'], c['ps']), data={'case': strip(c), 'impl': r})
+            ctx.violation('%s raised %s (proportions %r)%s' % (c['fn'], r['error'], c.get('ps'), where(c, top, j)), data=vdata)
             ctx.violations[-1]['prio'] = 0 if in_simplex(model_ps(c)) else 1
             continue
         finite = r['raised'] or all(math.isfinite(x) for x in r['res'])
         # --- property predicates on the implementation
-        bad = predicates(ctx, c, r)
+        bad = predicates(ctx, c, r) + layout_predicates(ctx, c, r)
         pname = {'pulse': 'marginals of the other populations / zero identity / acceptance', 'cons': 'new-population marginal / bracketing / copy / acceptance',
                  'split12': 'new-population marginal', 'remove': 'remove = marginalisation', 'filter': 'filter = marginalisation', 'reorder': 'reorder = permutation'}[c['op']]
         known = [k for _, k in bad if k is not None]
-        ob = ctx.obligation('%s case %d (%s, %s density%s): %s' % (c['fn'], c['id'], c['cls'], c.get('dens', '?'),
-                                                                 '' if c.get('shared', True) else ', per-axis grids', pname),
+        ob = ctx.obligation('%s case %d (%s, %s density%s%s): %s' % (c['fn'], c['id'], c['cls'], c.get('dens', '?'),
+                                                                   '' if c.get('shared', True) else ', per-axis grids',
+                                                                   ', step %d of %s' % (j + 1, top['pipe']) if 'steps' in top else
+                                                                   ', layout ' + top['layout'] if top.get('layout', 'C') != 'C' else '', pname),
                             not bad, 'predicate', '; '.join(w for w, _ in bad)[:400])
         if bad:
             ctx.obligations[-1]['known_key'] = known[0] if len(known) == len(bad) else None
@@ -664,7 +975,7 @@ def run(ctx):
             if tag in reported:
                 continue
             reported.add(tag)
-            ctx.violation(what, data={'case': strip(c), 'impl': r}, key=key)
+            ctx.violation(what + where(c, top, j), data=vdata, key=key)
         # --- correspondence
         above = c['op'] in ('pulse', 'cons') and NPROPS[c['fn']] > 0 and sum(Fraction(p) for p in model_ps(c)) > 1
         valcmp = finite and not above and not r['raised']
@@ -684,8 +995,8 @@ def run(ctx):
         if not ok:
             nbad += 1
             if nbad <= 3 and not any(v['key'] is None and not v['no_input'] for v in ctx.violations):
-                ctx.violation('%s (%s, proportions %r): the real code and the Coq model of PhiManip disagree; no clause of the property failed on any generated input' % (
-                    c['fn'], c['cls'], c['ps']), data={'case': strip(c), 'impl': byid[c['id']], 'coq': rr}, no_input=True,
+                ctx.violation('%s (%s, proportions %r): the real code and the Coq model of PhiManip disagree; no clause of the property failed on any generated input%s' % (
+                    c['fn'], c['cls'], c.get('ps'), where(c, *tops[c['id']])), data={'case': strip(tops[c['id']][0]), 'step': tops[c['id']][1], 'impl': byid[c['id']], 'coq': rr}, no_input=True,
                     broken='correspondence %s' % c['fn'])
     # a function whose source the translator no longer recognises: it was run on the rich pool above (7 densities x
     # 7 proportion classes x shared / per-axis grids) against the Coq model and the conservation predicates; only when
